@@ -10,7 +10,7 @@ sys.path.insert(0, HERE)
 
 ALL = ["C%02d" % i for i in range(1, 21)]
 # properties whose check has been run end to end on the unchanged tree by the coordinator
-READY = ["C01", "C02", "C15", "C19", "C04", "C05", "C06", "C07", "C09", "C10", "C12", "C13", "C14", "C16", "C17", "C20", "C08", "C18", "C03"]
+READY = ["C01", "C02", "C15", "C19", "C04", "C05", "C06", "C07", "C09", "C10", "C12", "C13", "C14", "C16", "C17", "C20", "C08", "C18", "C03", "C11"]
 
 
 def main():
